@@ -54,7 +54,7 @@ func registerC14() {
 // c14Wasm runs the js/wasm build of the monitor (cmd/c14wasm) under node, if ./run could build
 // it and a node binary exists: the package compiled for a platform that is neither amd64 nor 386.
 func c14Wasm(c *lib.Ctx) {
-	wasm, js, node := os.Getenv("VERIF_C14_WASM"), os.Getenv("VERIF_WASM_EXEC_JS"), os.Getenv("VERIF_NODE")
+	wasm, js, node := os.Getenv("VERIF_WASM_PROG"), os.Getenv("VERIF_WASM_EXEC_JS"), os.Getenv("VERIF_NODE")
 	if wasm == "" || js == "" || node == "" {
 		c.Count("wasm_pass_not_possible_on_this_host", 1)
 		return
